@@ -55,5 +55,13 @@ Failed ==
                 LET f == T.prog[T.root].fields[i] IN
                 f.k = "Int" => WellTyped(T.prog, f, Lookup(V, f.name)))
 
-Report == PrintT(<<"RES", tid, SetToSeq(Failed)>>)
+\* C20: equality is structural and total (recorded: the visible values of both packets, the results of == and !=)
+FailedEq ==
+    IF ~T.eq.has THEN {}
+    ELSE F("C20_Total", T.eq.errors = 0) \cup
+         F("C20_Structural", T.eq.errors = 0 => (T.eq.eq = (T.eq.cv1 = T.eq.cv2) /\ T.eq.ne = ~T.eq.eq)) \cup
+         F("C20_ParsedEqual", (T.eq.errors = 0 /\ T.eq.hasparsed) =>
+                (T.eq.parsed_eq /\ T.eq.parsed_vs_built = (T.eq.parsed_vals = T.eq.cv1)))
+
+Report == PrintT(<<"RES", tid, SetToSeq(Failed \cup FailedEq)>>)
 =============================================================================
